@@ -240,6 +240,8 @@ def main():
             jobs = [j for j in jobs if re.search(args.only, j["id"])]
             cov["exhaustive"] = False
             notes.append("partial run (--only)")
+        if not jobs:
+            continue
         meta = {j["id"]: j for j in jobs}
         ejobs = []
         for j in jobs:
